@@ -18,6 +18,8 @@ mod stream;
 mod stream_buffer;
 mod timestamp;
 mod validate;
+#[cfg(cfb_verif)]
+pub mod verif;
 mod version;
 
 pub use self::alloc::Allocator;
